@@ -87,7 +87,7 @@ def evaluate(sid: str, tier: str, inplace: bool) -> int:
             print(out)
             return 2
         try:
-            rc, out = sh(["./check", prop, "--tier", tier], cwd=V)
+            rc, out = sh(["./check", prop, "--tier", tier], cwd=V, env={"VERIF_EVIDENCE_DIR": str(V / "out" / "seed_evidence")})
         finally:
             sh("git -C /repo checkout -- .")
     else:
@@ -100,7 +100,8 @@ def evaluate(sid: str, tier: str, inplace: bool) -> int:
             print("patch failed", out[-400:])
             return 2
         try:
-            rc, out = sh(["./check", prop, "--tier", tier], cwd=V, env={"VERIF_REPO": str(scratch)})
+            rc, out = sh(["./check", prop, "--tier", tier], cwd=V,
+                         env={"VERIF_REPO": str(scratch), "VERIF_EVIDENCE_DIR": str(V / "out" / "seed_evidence")})
         finally:
             shutil.rmtree(scratch, ignore_errors=True)
     lines = [x for x in out.splitlines() if x.startswith(("VIOLATION", "  clause", "KNOWN", prop, "MACHINERY", "  ("))]
